@@ -282,11 +282,20 @@ class HashComputer:
                 # And that's it!
                 return
 
-            # Process tasks
+            # Process tasks (a task that marks one of its own parameters as
+            # its output: within the task, the parameter is the input it was
+            # when the task was identified, i.e. submitted - the mark is then
+            # skipped, and what is computed depends on the context as with any
+            # other loop)
             if value.__xpm__.task is not None and (value.__xpm__.task is not value):
-                hash_logger.debug("Computing hash for task %s", value.__xpm__.task)
-                self._hashupdate(HashComputer.TASK_ID)
-                self.update(value.__xpm__.task)
+                if self.config_path.detect_loop(value.__xpm__.task):
+                    pass
+                else:
+                    hash_logger.debug(
+                        "Computing hash for task %s", value.__xpm__.task
+                    )
+                    self._hashupdate(HashComputer.TASK_ID)
+                    self.update(value.__xpm__.task)
 
             xpmtype = value.__xpmtype__
             self._hashupdate(xpmtype.identifier.name.encode("utf-8"))
@@ -1189,6 +1198,9 @@ class ConfigInformation:
         """Sets a dependency on the job"""
         assert not isinstance(config, Task), "Cannot set a dependency on a task"
         config.__xpm__.task = self.pyobject
+        # The task is part of the identifier: drop what was cached before
+        config.__xpm__._raw_identifier = None
+        config.__xpm__._full_identifier = None
         return config
 
     # --- Serialization
